@@ -226,6 +226,13 @@ class SRPAuthHandler:
             Public=atv_pub_key,
         )
 
+        # An Ed25519 long-term public key is always 32 bytes; anything else can
+        # never be verified later on, so do not store it as credentials
+        if len(atv_pub_key) != 32:
+            raise exceptions.AuthenticationError(
+                f"invalid public key length: {len(atv_pub_key)}"
+            )
+
         # TODO: verify signature here
 
         return HapCredentials(
